@@ -77,6 +77,22 @@ impl Doc {
         v.sort();
         v
     }
+    fn aggs_of_own(&self, me: &str) -> Vec<String> {
+        let mut v = vec![];
+        let empty = vec![];
+        for st in self.j["trace"].as_array().unwrap_or(&empty) {
+            if let Some((kind, cid)) = state_cid(st) {
+                if kind == "unused" {
+                    continue;
+                }
+                if self.peer_of_agg(&cid).as_deref() == Some(me) && !v.contains(&cid) {
+                    v.push(cid);
+                }
+            }
+        }
+        v.sort();
+        v
+    }
     fn peer_of_agg(&self, cid: &str) -> Option<String> {
         let agg = self.j["cid_info"]["service_result_store"].get(cid)?;
         let t = self.j["cid_info"]["tetraplet_store"].get(agg.get("tetraplet_cid")?.as_str()?)?;
@@ -297,6 +313,21 @@ pub fn apply(w: &World, data: InterpreterData, by: usize, op: &ForgeOp, particle
             let i = pos[*n as usize % pos.len()];
             d.j["trace"][i] = json!({"call": {"sent_by": {"PeerId": me}}});
             must = Some("truncate_results".into());
+        }
+        ForgeOp::OwnRewrite { n } => {
+            // equivocation: the sender replaces one of its OWN results by another value and signs the new set;
+            // nothing attributed to another peer changes, so verification alone cannot object (C15 must)
+            let c = d.aggs_of_own(&me);
+            if c.is_empty() {
+                return None;
+            }
+            let old = c[*n as usize % c.len()].clone();
+            let raw = format!("{{\"equivocated\":{n}}}");
+            let nv = raw_cid(&raw);
+            d.j["cid_info"]["value_store"][&nv] = json!(raw);
+            let mut agg = d.j["cid_info"]["service_result_store"][&old].clone();
+            agg["value_cid"] = json!(nv);
+            d.rekey_agg(&old, agg)?;
         }
         ForgeOp::CanonRewrite { n } => {
             // alter another peer's executed canon result (reorder / drop an element), stores kept consistent
